@@ -57,6 +57,37 @@ theorem C13_complementary (f : Fac) (r rn : Int) :
   · rw [prevCond_eq_not_nextCond]; exact num_add_num_not f _
   · rw [prevCond_eq_not_nextCond]; exact val_add_val_not f _
 
+/-- the hypothesis the tiling theorems rest on, stated on the condition columns themselves: on every
+pair of neighbouring rows of every group `prev(i+1) ↔ ¬ next(i)`, the first row has previous condition
+False and the last row next condition False.  It is a theorem about the EXACT comparisons
+`r(i+1) − r(i) ≤ 0` and `r(i) − r(i+1) < 0`: a tolerance in one of them only (rates equal up to rounding)
+breaks it, and with it `offsets_meet` / `C13_tiling_any_rounding`. -/
+theorem C13_conditions_complementary (S E : Int) (rows : List Row) :
+    Complementary (groupConds S E rows) ∧
+    (∀ c ∈ (groupConds S E rows).head?, c.1 = false) ∧
+    (∀ c ∈ (groupConds S E rows).getLast?, c.2 = false) := by
+  refine ⟨complementary_condsFrom _ none, ?_, ?_⟩
+  · unfold groupConds
+    cases groupRows S E rows with
+    | nil => simp [condsFrom]
+    | cons x rest => simp [condsFrom_cons]
+  · unfold groupConds
+    generalize groupRows S E rows = l
+    suffices h : ∀ (l : List Row) (prev : Option Row), ∀ c ∈ (condsFrom prev l).getLast?, c.2 = false from h l none
+    intro l
+    induction l with
+    | nil => intro prev; simp [condsFrom]
+    | cons x rest ih =>
+      intro prev
+      cases rest with
+      | nil => simp [condsFrom]
+      | cons z zs =>
+        have := ih (some x)
+        rw [condsFrom_cons prev x (z :: zs)]
+        rw [condsFrom_cons (some x) z zs] at this ⊢
+        rw [List.getLast?_cons_cons]
+        exact this
+
 /-- `⌈g·x⌉ + ⌊g·(1−x)⌋ = g` over ℚ, and its model form: in exact arithmetic the repaired offsets
 (which only ever round `g·f` and take the complement by subtraction) are the offsets
 `⌊g·a⌋`, `⌈g·b⌉` the code computed before the repairs -/
